@@ -29,16 +29,16 @@ type frtResponder struct {
 }
 
 type frtProvSc struct {
-	K        int            `json:"k"`
-	Key      int            `json:"key"`
-	Peers    []crawledPeer  `json:"peers"`
-	Resp     []frtResponder `json:"resp"` // behaviour of the i-th crawled peer (cyclic)
-	Count    int            `json:"count"`
-	Local    []int          `json:"local,omitempty"` // provider numbers stored locally
-	LocalAdr bool           `json:"local_addr,omitempty"`
-	CancelMs int            `json:"cancel_ms,omitempty"`
-	SlowReadMs int          `json:"slow_read_ms,omitempty"` // the consumer pauses this long after every provider it reads
-	SelfProv bool           `json:"self_is_provider_1,omitempty"` // provider number 1 is the searching node itself (named by responders; its own store need not know)
+	K          int            `json:"k"`
+	Key        int            `json:"key"`
+	Peers      []crawledPeer  `json:"peers"`
+	Resp       []frtResponder `json:"resp"` // behaviour of the i-th crawled peer (cyclic)
+	Count      int            `json:"count"`
+	Local      []int          `json:"local,omitempty"` // provider numbers stored locally
+	LocalAdr   bool           `json:"local_addr,omitempty"`
+	CancelMs   int            `json:"cancel_ms,omitempty"`
+	SlowReadMs int            `json:"slow_read_ms,omitempty"`       // the consumer pauses this long after every provider it reads
+	SelfProv   bool           `json:"self_is_provider_1,omitempty"` // provider number 1 is the searching node itself (named by responders; its own store need not know)
 }
 
 // providers come from a pool of their own (the crawled peers use the whole peer pool)
